@@ -406,6 +406,8 @@ static std::string op_kpkeval(std::istringstream& is)
     return out;
 }
 
+#include "ops_time.h"
+
 static std::string dispatch_more(const std::string& op, std::istringstream& is)
 {
     if (op == "g_legal") return run_game(is, obs_legal);
@@ -426,5 +428,5 @@ static std::string dispatch_more(const std::string& op, std::istringstream& is)
     if (op == "san_parse") return op_san_parse(is);
     if (op == "g_classify" || op == "g_classify_alg") return run_game(is, obs_classify);
     if (op == "g_preds") return run_game(is, obs_preds);
-    return "UNKNOWN-OP " + op;
+    return dispatch_time(op, is);
 }
